@@ -133,7 +133,7 @@ static void h_del(const Args &a) {
     h->~HObj();
     Ev ev("cxh.del"); ev.s("cls", hcls(id)).n("obj", id);
     if (a.num("dump_raw")) ev.n("wipe", a.num("wipe")).b("raw", (const uint8_t *)st, sizeof(ascon_xof_state_t));
-    ev.emit(); free((void *)h); obj_del(id);
+    ev.emit(); HObj::operator delete((void *)h); obj_del(id);
 }
 static void h_digest(const Args &a) {
     std::string cls = a.str("cls"); bytes_t d = a.hex("in"); InBuf b(d, a.num("null_if_empty") != 0); OutBuf o(32);
